@@ -37,6 +37,8 @@ pub fn get_diluted_product(n_bits: Felt, spacing: Felt, z: Felt, alpha: Felt) ->
             break p + q * alpha;
         }
 
+        #[cfg(swiftness_verif)]
+        swiftness_transcript::verif::tick("air.diluted", 1);
         x += diff_x;
         diff_x *= diff_multiplier;
         let x_p = x * p;
